@@ -238,14 +238,17 @@ class Output(BaseOutput):
         self.nc.variables["time"][self.local_record_count] = self.timer.nctime()
 
         if self.layout == "dense":
-            # Fill out state.alive, False for unborn particles
-            has_value = np.full(len(state), False)
-            has_value[: len(state)] = state.alive
+            # Write a full row for the particles released so far,
+            # living particles at index pid, fill value (masked) elsewhere
+            alive = state.alive
+            pid = state.pid[alive]
+            npid = state.npid
             for var in self.instance_variables:
-                # values = getattr(state, var)
-                self.nc.variables[var][self.local_record_count, has_value] = getattr(
-                    state, var
-                )[state.alive]
+                if npid > 0:
+                    dtype = getattr(state, var).dtype
+                    values = np.ma.array(np.zeros(npid, dtype=dtype), mask=True)
+                    values[pid] = getattr(state, var)[alive]
+                    self.nc.variables[var][self.local_record_count, :npid] = values
         elif self.layout == "sparse":
             count = len(state)  # Present number of particles
             start = self.local_instance_count
@@ -258,8 +261,11 @@ class Output(BaseOutput):
         if self.lonlat:
             lon, lat = self.xy2ll(state.X, state.Y)
             if self.layout == "dense":
-                self.nc.variables["lon"][self.local_record_count, :] = lon
-                self.nc.variables["lat"][self.local_record_count, :] = lat
+                if npid > 0:
+                    for var, values in [("lon", lon), ("lat", lat)]:
+                        row = np.ma.array(np.zeros(npid), mask=True)
+                        row[pid] = values[alive]
+                        self.nc.variables[var][self.local_record_count, :npid] = row
             elif self.layout == "sparse":
                 self.nc.variables["lon"][start:end] = lon
                 self.nc.variables["lat"][start:end] = lat
